@@ -14,7 +14,6 @@ import (
 	"strings"
 	"sync"
 	"sync/atomic"
-	"time"
 
 	"github.com/indexsupply/shovel/jrpc2"
 	"github.com/indexsupply/shovel/shovel"
@@ -169,8 +168,29 @@ func (w *World) buildTasks() error {
 		old[p.Key()] = p
 	}
 	w.Pairs = nil
+	// the tasks are built by shovel's own loadTasks (hook VerifLoadTasks): one client per
+	// source shared by its tasks, context stamped with chain id, source and integration name
+	for i := range w.conf.Sources {
+		// (the operator may have edited the file between two starts)
+		if s := w.source(w.conf.Sources[i].Name); s != nil {
+			w.conf.Sources[i].BatchSize, w.conf.Sources[i].Concurrency = s.Batch, s.Conc
+		}
+	}
+	tasks, err := shovel.VerifLoadTasks(context.Background(), w.pool, w.conf)
+	if err != nil {
+		return fmt.Errorf("loadTasks: %w", err)
+	}
+	byKey := map[string]*shovel.Task{}
+	for _, t := range tasks {
+		ti := t.VerifInfo()
+		k := ti.SrcName + "/" + ti.IGName
+		if byKey[k] != nil {
+			return fmt.Errorf("loadTasks built two tasks for %s", k)
+		}
+		byKey[k] = t
+	}
 	for _, s := range w.Sources {
-		s.client = jrpc2.New(s.URL).WithPollDuration(time.Hour).WithMaxReads(len(w.conf.Integrations))
+		s.client = nil
 	}
 	for i, ig := range w.conf.Integrations {
 		if !ig.Enabled {
@@ -181,22 +201,13 @@ func (w *World) buildTasks() error {
 			if s == nil {
 				return fmt.Errorf("unknown source %s", sr.Name)
 			}
-			ctx := context.Background()
-			ctx = wctx.WithChainID(ctx, s.ChainID)
-			ctx = wctx.WithSrcName(ctx, s.Name)
-			ctx = wctx.WithIGName(ctx, ig.Name)
-			task, err := shovel.NewTask(
-				shovel.WithContext(ctx),
-				shovel.WithPG(w.pool),
-				shovel.WithRange(sr.Start, sr.Stop),
-				shovel.WithConcurrency(s.Conc, s.Batch),
-				shovel.WithSrcName(s.Name),
-				shovel.WithChainID(s.ChainID),
-				shovel.WithSource(s.client),
-				shovel.WithIntegration(ig),
-			)
-			if err != nil {
-				return fmt.Errorf("NewTask: %w", err)
+			task := byKey[s.Name+"/"+ig.Name]
+			if task == nil {
+				return fmt.Errorf("loadTasks built no task for %s/%s", s.Name, ig.Name)
+			}
+			delete(byKey, s.Name+"/"+ig.Name)
+			if ti := task.VerifInfo(); ti.Start != sr.Start || ti.Stop != sr.Stop || ti.ChainID != s.ChainID {
+				return fmt.Errorf("loadTasks built %+v for %s/%s (configured start %d stop %d batch %d chain %d)", ti, s.Name, ig.Name, sr.Start, sr.Stop, s.Batch, s.ChainID)
 			}
 			p := &Pair{Src: s, Decl: w.decls[i].WithRequired(), Start: sr.Start, Stop: sr.Stop, task: task, ig: ig}
 			if o := old[p.Key()]; o != nil {
@@ -204,6 +215,9 @@ func (w *World) buildTasks() error {
 			}
 			w.Pairs = append(w.Pairs, p)
 		}
+	}
+	if len(byKey) > 0 {
+		return fmt.Errorf("loadTasks built %d tasks nobody configured", len(byKey))
 	}
 	for _, s := range w.Sources {
 		s := s
